@@ -342,8 +342,8 @@ def run(ctx, idx):
     sv = None
     for f in funcs:
         src = K.src(f.node)
-        if "ResultParameter" in src and "string_types" in src:
-            sv = f
+        if "ResultParameter" in src and "string_types" in src and (sv is None or len(src) < len(K.src(sv.node))):
+            sv = f  # the innermost function that makes the choice (an enclosing function contains the same text)
     con = "%s::bare-references" % ts.key
     if sv is None:
         raise AnalysisError("C15.b: the function choosing between bare and quoted emission was not found")
@@ -353,6 +353,44 @@ def run(ctx, idx):
     ref_tests = [t for t in cfg.find("test") if "ResultParameter" in t.text()]
     ok = bool(quoted_rets) and bool(str_tests) and bool(ref_tests) and all(cfg.dominates(ref_tests[0], s) for s in str_tests)
     ctx.ob("C15.b", con, K.rel(sv), sv.node.lineno, ok, "strings are quoted unless the parameter is a result reference" if ok else "the serialiser no longer quotes exactly the non-reference strings")
+    # every return of the value as it is (`return value`, `return str(value)`) is taken for a result reference (true side of the
+    # ResultParameter test) or for a value that is not text (false side of the string test) - never for some other kind of string
+    vp = sv.node.args.args[0].arg if sv.node.args.args else None
+    bare = [r for r in cfg.find("return") if (isinstance(r.ast.value, ast.Name) and r.ast.value.id == vp)
+            or (isinstance(r.ast.value, ast.Call) and K.src(r.ast.value.func) in ("str", "six.text_type", "text_type") and len(r.ast.value.args) == 1 and isinstance(r.ast.value.args[0], ast.Name) and r.ast.value.args[0].id == vp)]
+
+    def reachable_otherwise(r):
+        """is r reachable from the entry along edges that are neither the true outcome of a ResultParameter test nor the false
+        outcome of a string test?  (then a string that is no reference can arrive there)"""
+        cut = {(id(t), "true") for t in ref_tests} | {(id(t), "false") for t in str_tests}
+        # a test on a name bound to the reference test (`is_reference = isinstance(param, ResultParameter) or ...`), possibly negated
+        for t in cfg.find("test"):
+            e_ = t.ast
+            neg_ = False
+            while isinstance(e_, ast.UnaryOp) and isinstance(e_.op, ast.Not):
+                neg_ = not neg_
+                e_ = e_.operand
+            if isinstance(e_, ast.Name) and "ResultParameter" in K.src(K.expand(sv, e_)) and "isinstance" in K.src(K.expand(sv, e_)):
+                cut.add((id(t), "false" if neg_ else "true"))
+        seen, work = set(), [cfg.entry]
+        while work:
+            n = work.pop()
+            if id(n) in seen:
+                continue
+            seen.add(id(n))
+            if n is r:
+                return True
+            for m, lab in n.succ:
+                if lab == "exc" or (id(n), lab) in cut:
+                    continue
+                work.append(m)
+        return False
+
+    for r in bare:
+        fine = not reachable_otherwise(r)
+        con_b = "%s::bare-text@%d" % (ts.key, bare.index(r) + 1)
+        ctx.ob("C15.b", con_b, K.rel(sv), r.line, fine, "the value is written as it is only for result references and for values that are not text" if fine else
+               "`%s` writes a string that is not a result reference without quotes: the loader tokenises it again - identifiers and numbers are recognised first, blanks between tokens are dropped, numbers are re-spelled (`run 1/in.csv` comes back `run1/in.csv`, `007.csv` as `7.0csv`) - so the reloaded argument is another text" % K.src(r.ast)[:40])
     # ------------------------------------------------------------------ c
     allsrc = " ".join(K.src(f.node) for f in funcs)
     # nested lists: the element serialiser must itself recognise list values
@@ -453,6 +491,10 @@ def run(ctx, idx):
     from .C16 import parser_state
     ctx.rule("C15.e", "The loader's parser carries no state from one load to the next: every attribute a grammar action sets is reset by parse(), or a fresh Parser is built for each load.")
     parser_state(ctx, idx, "C15.e")
+    ctx.rule("C15.h", "What the serialiser writes between quotes is what the lexer reads: from_source and Parser.parse hand the text on as it is (C10.i's reading). to_string writes string and metadata values literally between quotes, so a rewrite of the whole text on the way in (splitlines / join, replace, strip) changes the CR, form feed, NEL or U+2028 inside a value and the program loaded back differs from the one written.")
+    from .C11 import text_reaches_lexer
+
+    text_reaches_lexer(ctx, idx, "C15.h", "a string or metadata value holding such a character is written literally by to_string and comes back changed, so the reloaded program is not the one serialised")
     # result name and command name
     ok = False
     for f in funcs:
